@@ -82,6 +82,9 @@ class Aware(Sub):
     shards = {"quick": 3, "thorough": 8}
     rule = "non-trivial: a transition of the zone lies between start and result, or start/result within a gap length of a transition"
 
+    def describe(self, case):
+        return {"value": T.render(case["u"], case["zone"]).isoformat()}
+
     def strategy(self, ctx):
         return aware_case()
 
